@@ -102,6 +102,7 @@ func (fc *FCtx) u64be() {
 		fc.U.Fun("u64of", []*Sort{bz}, SInt)
 		fc.U.Axiom("big-endian uint64 round trip", "(forall ((x Int)) (! (=> (in_uint64 x) (and (= (u64of (u64be x)) x) (not (= (u64be x) bz_nil)))) :pattern ((u64be x))))")
 		fc.U.Axiom("BigEndianToUint64(nil) = 0", "(= (u64of bz_nil) 0)")
+		fc.U.Axiom("big-endian uint64 is 8 bytes", "(forall ((x Int)) (! (= (bz_len (u64be x)) 8) :pattern ((u64be x))))")
 		fc.U.Axiom("BigEndianToUint64 range", "(forall ((b Bz)) (! (in_uint64 (u64of b)) :pattern ((u64of b))))")
 	}
 }
@@ -414,4 +415,35 @@ func (fc *FCtx) callFuncValue(e *ast.CallExpr, st *State) ([]Val, bool) {
 		}
 	}
 	return nil, true
+}
+
+func (fc *FCtx) bech32Fns() {
+	a := fc.U.opaque("Addr")
+	fc.U.Fun("bech32_addr", []*Sort{SStr}, a)
+	fc.U.Fun("bech32_err", []*Sort{SStr}, SInt)
+	fc.U.Fun("addr_string", []*Sort{a}, SStr)
+	fc.U.Axiom("bech32 decoding (error code is non-negative; String/FromBech32 round trip)", "(and (forall ((s Str)) (! (>= (bech32_err s) 0) :pattern ((bech32_err s)))) (forall ((x Addr)) (! (and (= (bech32_addr (addr_string x)) x) (= (bech32_err (addr_string x)) 0)) :pattern ((addr_string x)))))")
+}
+
+func init() {
+	I := intrinsics
+	fromBech := func(fc *FCtx, st *State, e *ast.CallExpr, r *Val, a []Val) []Val {
+		fc.bech32Fns()
+		rt := fc.info().TypeOf(e).(*types.Tuple)
+		return []Val{{T: app("bech32_addr", a[0].T), S: fc.U.opaque("Addr"), GoT: rt.At(0).Type()}, {T: app("bech32_err", a[0].T), S: SInt, GoT: rt.At(1).Type()}}
+	}
+	I["github.com/cosmos/cosmos-sdk/types.ValAddressFromBech32"] = fromBech
+	I["github.com/cosmos/cosmos-sdk/types.AccAddressFromBech32"] = fromBech
+	must := func(fc *FCtx, st *State, e *ast.CallExpr, r *Val, a []Val) []Val {
+		fc.bech32Fns()
+		fc.panicCheck(st, "MustAccAddressFromBech32", "(= "+app("bech32_err", a[0].T)+" 0)", e.Pos())
+		return []Val{{T: app("bech32_addr", a[0].T), S: fc.U.opaque("Addr"), GoT: fc.resT(e)}}
+	}
+	I["github.com/cosmos/cosmos-sdk/types.MustAccAddressFromBech32"] = must
+	I["(encoding/binary.bigEndian).Uint64"] = func(fc *FCtx, st *State, e *ast.CallExpr, r *Val, a []Val) []Val {
+		fc.u64be()
+		b := fc.toBz(a[0])
+		fc.panicCheck(st, "BigEndian.Uint64-short", fmt.Sprintf("(>= (bz_len %s) 8)", b), e.Pos())
+		return []Val{{T: app("u64of", b), S: SInt, GoT: fc.resT(e)}}
+	}
 }
